@@ -295,22 +295,35 @@ theorem C07_gen_request_layout :
       some ["'network'", "'node'", "target_firewall_nodename", "firewall_port_name", "firewall_port_direction", "'acl'",
             "'remove_rule'", "position"] := by decide
 
-/-- the keyword mapping every loader block must use: parameter ↦ (scenario key, lookup table) -/
-def loaderMapping : List (String × String × String) :=
+/-- the scenario key every loader block must read FIRST for a parameter, and the table it is looked up in -/
+def loaderPrimary : List (String × String × String) :=
   [("action", "action", "ACLAction"), ("src_port", "src_port", "PORT_LOOKUP"), ("dst_port", "dst_port", "PORT_LOOKUP"),
    ("protocol", "protocol", "PROTOCOL_LOOKUP"), ("src_ip_address", "src_ip", "-"),
    ("src_wildcard_mask", "src_wildcard_mask", "-"), ("dst_ip_address", "dst_ip", "-"),
-   ("dst_wildcard_mask", "dst_wildcard_mask", "-"), ("position", "<key>", "-")]
+   ("dst_wildcard_mask", "dst_wildcard_mask", "-")]
 
 /-- **Scenario loading installs each rule into the list it is written under, field by field**: `Router.from_config` has
 one rule loop (into `router.acl`), `Firewall.from_config` six — the loop over `config['acl'][X]` adds to `firewall.X`, for
-exactly the six list fields of the class — and all seven pass the same keys to the same parameters, the mapping key as
-position. -/
+exactly the six list fields of the class — all seven read the same keys for the same parameters (the keys the shipped
+scenarios use first), and pass the mapping key as position. -/
 theorem C07_gen_loader_blocks :
-    (∀ b, b ∈ loaderBlocks → b.2.2.2 = loaderMapping) ∧
+    (∀ b, b ∈ loaderBlocks → b.2.2.2 = (loaderBlocks.head?.map (·.2.2.2)).getD []) ∧
+    (loaderBlocks.head?.map (fun b => (b.2.2.2.filter (·.2.1 ≠ [])).map (fun k => (k.1, k.2.1.head?.getD "", k.2.2)))) =
+      some loaderPrimary ∧
+    (loaderBlocks.head?.map (fun b => (b.2.2.2.filter (·.2.1 == [])).map (fun k => (k.1, k.2.2)))) =
+      some [("position", "<mapping key>")] ∧
     (loaderBlocks.filter (·.1 == "Router")).map (fun b => (b.2.1, b.2.2.1)) = [("router.acl", "acl.items()")] ∧
     (loaderBlocks.filter (·.1 == "Firewall")).map (fun b => (b.2.1, b.2.2.1)) =
       firewallLists.map (fun l => ("firewall." ++ l.1, "config['acl']['" ++ l.1 ++ "'].items()")) := by decide
+
+/-- every key a loader block reads -/
+def loaderReadKeys : List String := ((loaderBlocks.head?.map (·.2.2.2)).getD []).flatMap (·.2.1)
+
+/-- **Every rule key the documentation tells users to write is a key the loaders read** (so a rule written as documented is
+installed with that field, not silently without it).  Before the repair recorded as F-C07r3-1 the docstring of
+`Router.from_config` and the configuration pages' own example used `src_ip_address` / `dst_ip_address`, which the loaders
+ignored: the documented example rule was installed as PERMIT-everything. -/
+theorem C07_gen_documented_keys_read : ∀ k, k ∈ documentedRuleKeys → k ∈ loaderReadKeys := by decide
 
 /-- device defaults: the six firewall lists with their documented implicit actions, the router list's DENY and its two
 default rules -/
